@@ -613,8 +613,17 @@ def case_kdriver(rng):
     if atoms_map:
         C = C[[perm.index(j) for j in range(n)], :]        # undo the shuffle: the fixed map is the identity
         cuniq = runiq
-    case = {"kind": "kdriver", "R": R.tolist(), "C": C.tolist(), "runiq": list(map(str, runiq)), "cuniq": list(map(str, cuniq)),
-            "run_mirror": run_mirror, "atoms_map": atoms_map}
+    return run_eval(eval_kdriver, "kdriver", {"kind": "kdriver", "R": R.tolist(), "C": C.tolist(), "runiq": list(map(str, runiq)),
+                                              "cuniq": list(map(str, cuniq)), "run_mirror": run_mirror, "atoms_map": atoms_map}, none=[])
+
+
+def eval_kdriver(inp):
+    """one observed B787 run on the recorded pair; everything is recomputed from `inp` (used by replay() as well)"""
+    case = {k: inp[k] for k in ("kind", "R", "C", "runiq", "cuniq", "run_mirror", "atoms_map")}
+    R, C = np.array(case["R"], dtype=float), np.array(case["C"], dtype=float)
+    runiq, cuniq = np.array(case["runiq"]), np.array(case["cuniq"])
+    run_mirror, atoms_map = case["run_mirror"], case["atoms_map"]
+    n = len(R)
     try:
         with MirrorRedirect() as red, DriverTap() as tap:
             rmsd, sol = red.orig(C.copy(), R.copy(), cuniq, runiq, verbose=0, atoms_map=atoms_map, mols_align=False, algorithm="permutative",
@@ -696,10 +705,21 @@ def scramble_oracle(rng):
     """compute_scramble with its defaults (global numpy RNG): a permutation, a shift in [-3, 3)^3, a proper rotation"""
     from qcelemental.molutil.align import compute_scramble
     nat = rng.randint(1, 12)
-    np.random.seed(rng.randrange(1 << 30))
+    seed = rng.randrange(1 << 30)
     defl = rng.choice([1.0, 1.0, 0.1, 0.0])
-    m = compute_scramble(nat, deflection=defl, do_mirror=rng.random() < 0.5)
-    case = {"kind": "scramble", "nat": nat, "deflection": defl}
+    case = {"kind": "scramble", "nat": nat, "deflection": defl, "np_seed": seed, "do_mirror": rng.random() < 0.5}
+    try:
+        return eval_scramble(case)
+    except Exception as e:
+        return case, "compute_scramble raised %s: %s" % (type(e).__name__, e)
+
+
+def eval_scramble(case):
+    """compute_scramble draws from numpy's global RNG: the seed is part of the recorded case"""
+    from qcelemental.molutil.align import compute_scramble
+    nat, defl = case["nat"], case["deflection"]
+    np.random.seed(case["np_seed"])
+    m = compute_scramble(nat, deflection=defl, do_mirror=case["do_mirror"])
     Rm = np.asarray(m.rotation, dtype=float)
     if sorted(map(int, m.atommap)) != list(range(nat)):
         return case, "compute_scramble: atommap is not a permutation of range(nat)"
@@ -1399,20 +1419,22 @@ def replay(ctx, rp):
         except Exception as e:
             return {"case": case, "observed": "%s: %s" % (type(e).__name__, e), "fails": True}
         return {"case": case, "observed": "no exception", "fails": False}
-    if case.get("kind") == "kselect":
-        # the driver misbehaved while a model case was built: run it again on the recorded input
-        R, C = np.array(case["R"], dtype=float), np.array(case["C"], dtype=float)
+    evals = {"kquat": (eval_kquat, None), "kalign": (eval_kalign, None), "kapplied": (eval_kapplied, None), "kselect": (eval_kselect, None),
+             "kweighted": (eval_kweighted, None), "kdriver": (eval_kdriver, [])}
+    if case.get("kind") in evals:
+        # the implementation misbehaved while a model case was built: the same evaluation again, from the recorded input alone
+        fn, none = evals[case["kind"]]
         try:
-            with MirrorRedirect() as red:
-                red.orig(C.copy(), R.copy(), np.array(case["cuniq"]), np.array(case["runiq"]), verbose=0, atoms_map=False,
-                         mols_align=case["mols_align"], run_to_completion=case["run_to_completion"], algorithm="permutative",
-                         run_mirror=case["run_mirror"])
-        except AttributeError as e:
-            cands = candidate_rmsds(R, C, np.array(case["runiq"]), np.array(case["cuniq"]), False)
-            return {"case": case, "observed": "AttributeError: %s" % e, "fails": bool(cands) and min(c[1] for c in cands) < 100.0}
+            c2, _ = run_eval(fn, case["kind"], {k: v for k, v in case.items() if k != "error"}, none=none)
+        except KeyError as e:
+            return {"case": case, "note": "replay recorded before the inputs were kept in full (missing %s): re-run ./check C12" % e, "fails": True}
+        return {"case": case, "observed": c2.get("error", "no misbehaviour"), "fails": "error" in c2}
+    if case.get("kind") == "scramble":
+        try:
+            _, sbad = eval_scramble(case)
         except Exception as e:
-            return {"case": case, "observed": "%s: %s" % (type(e).__name__, e), "fails": True}
-        return {"case": case, "observed": "no exception", "fails": False}
+            sbad = "compute_scramble raised %s: %s" % (type(e).__name__, e)
+        return {"case": case, "observed": sbad, "fails": bool(sbad)}
     return {"case": case, "note": "model-building failure: re-run ./check C12", "fails": True}
 
 
